@@ -8,10 +8,11 @@ on the same channel, the receiver thread of the gateway, other user threads — 
 
 `FState` = the coarse state plus the multiset of ENDMARKERs currently "in the hand" of a receiver.
 Every other operation stays atomic (`FOp.coarse`); `recvGet`/`recvFin` are the two halves of receive.
-`abs` puts the in-hand ENDMARKERs back: Proofs/Net/Fine.lean shows that under the hypothesis
-"no `setcallback` on a channel while a receiver of that channel holds its ENDMARKER" every fine history
-is observationally a coarse history (so all `Net` theorems carry over to this granularity), and that
-the hypothesis is necessary (the D22 schedule loses the endmarker).
+`abs` puts the in-hand ENDMARKERs back: Props/NetFine.lean (proofs in Proofs/Net/Fine*.lean) shows that under the
+hypothesis `respectsHands` — no `setcallback`/`drop` on a channel, and no delivery re-creating its id, while a
+receiver of that channel holds its ENDMARKER — every fine history is observationally a coarse history (so all
+`Net` theorems carry over to this granularity), and that the hypothesis is necessary (the D22 schedule loses the
+endmarker; a re-created id gets an ENDMARKER that no coarse history can produce).
 -/
 import ExecnetVerif.Model.Net
 namespace ExecnetVerif.Net
@@ -104,10 +105,21 @@ def FOp.coarseOf (f : FState) : FOp → Option Op
 
 /-- the hypothesis under which the two-step receive is harmless: while a receiver of a channel holds its
 ENDMARKER, no `setcallback` on that channel (D22: the put-back goes to the detached queue, the endmarker is lost
-for every other receiver) and the channel object is not dropped (the receiver itself references it) -/
+for every other receiver) and the channel object is not dropped (the receiver itself references it).
+
+The model identifies channel objects by their id, so a delivery that re-creates an id (`createAt`: a DATA item that
+carries the channel id, or a CHANNEL_EXEC for it) while a receiver of the OLD object still holds its ENDMARKER is
+outside the scope of the refinement as well: in the code the put-back goes to the old object, which the model no
+longer tracks (the coarse model marks such re-opened ids `broken` anyway).  `fine_deliver_guard_needed` shows that
+this clause cannot be left out. -/
 def FOp.respectsHands (f : FState) : FOp → Bool
   | .coarse (.setcallback s id _) => !(f.hand.contains (s, id))
   | .coarse (.drop s id) => !(f.hand.contains (s, id))
+  | .coarse (.deliver p) =>
+    match (f.st.side p.peer).out with
+    | .data _ v :: _ => v.chans.all fun k => !(f.hand.contains (p, k))
+    | .exec id :: _ => !(f.hand.contains (p, id))
+    | _ => true
   | _ => true
 
 /-- every operation of the run respects the hands at the moment it is issued -/
